@@ -196,7 +196,7 @@ func cmdCheck(args []string) int {
 	}
 	t0 := time.Now()
 	cfg := &Config{Solver: *solver, TimeoutMs: 10000, Fuel: 20_000_000, MaxDecisions: 400, MaxIndexSplit: 64,
-		MaxPaths: 200000, Workers: runtime.NumCPU(), Thorough: *tier == "thorough", Verbose: *verbose, Known: loadKnown()}
+		MaxPaths: 500000, Workers: runtime.NumCPU(), Thorough: *tier == "thorough", Verbose: *verbose, Known: loadKnown()}
 	if cfg.Thorough {
 		cfg.TimeoutMs = 120000
 		cfg.MaxPaths = 3000000
